@@ -19,12 +19,16 @@ Definition w_kids (x : ext) (q extended : bool) : list bstruct -> wr :=
     | c :: r => w_body x q extended c +++ ws " " +++ kids r
     end.
 
-Definition w_msgpart (x : ext) (q extended : bool) (msg : option (option envelope * bstruct * Z))
+Definition w_msgpart (x : ext) (q extended : bool) (typ : bytes) (msg : option (option envelope * bstruct * Z))
   (text : option Z) : wr :=
   match msg with
   | Some (e, b', lines) =>
       ws " " +++ w_envelope x q e +++ ws " " +++ w_body x q extended b' +++ ws " " +++ w_num64 lines
-  | None => match text with Some lines => ws " " +++ w_num64 lines | None => Some [] end
+  | None =>
+      match text with
+      | Some lines => ws " " +++ w_num64 lines
+      | None => if is_text_type typ then ws " " +++ w_num64 0%Z else Some []
+      end
   end.
 
 Definition w_spx (q extended : bool) (ext : option sp_ext) : wr :=
@@ -49,7 +53,7 @@ Lemma w_body_single : forall x q extended typ subtyp pr id desc enc size msg tex
   ws "(" +++
   w_string q typ +++ ws " " +++ w_string q subtyp +++ ws " " +++ w_params q pr +++ ws " " +++
   w_nstring q id +++ ws " " +++ w_nstring q (hide_words desc) +++ ws " " +++ w_encoding q enc +++ ws " " +++ w_num size +++
-  w_msgpart x q extended msg text +++ w_spx q extended ext +++ ws ")".
+  w_msgpart x q extended typ msg text +++ w_spx q extended ext +++ ws ")".
 Proof. reflexivity. Qed.
 
 Lemma w_body_multi : forall x q extended c cs subtyp ext,
@@ -282,7 +286,7 @@ Lemma norm_bs_single : forall extended typ subtyp pr id desc enc size msg text e
     (match msg with
      | Some (e, b', lines) => Some (Some (norm_env e), norm_bs extended b', lines)
      | None => None
-     end) text (if extended then option_map norm_spx ext else None).
+     end) (norm_text typ msg text) (if extended then option_map norm_spx ext else None).
 Proof. reflexivity. Qed.
 
 Lemma norm_bs_multi : forall extended cs subtyp ext,
@@ -303,8 +307,7 @@ Lemma wf_bs_single : forall x extended typ subtyp pr id desc enc size msg text e
   (match text with Some lines => is_text_type typ && i64 lines | None => true end) &&
   (if extended then
      (match ext with Some e => wf_spx e | None => false end) &&
-     (negb (is_message_type typ subtyp) || (match msg with Some _ => true | None => false end)) &&
-     (negb (is_text_type typ) || (match text with Some _ => true | None => false end))
+     (negb (is_message_type typ subtyp) || (match msg with Some _ => true | None => false end))
    else true).
 Proof. reflexivity. Qed.
 
@@ -320,7 +323,7 @@ Lemma w_body_single_inv : forall x q extended typ subtyp pr id desc enc size msg
   exists tb sb pb ib db eb mb xb,
     w_string q typ = Some tb /\ w_string q subtyp = Some sb /\ w_params q pr = Some pb /\
     w_nstring q id = Some ib /\ w_nstring q (hide_words desc) = Some db /\ w_encoding q enc = Some eb /\
-    w_msgpart x q extended msg text = Some mb /\ w_spx q extended ext = Some xb /\
+    w_msgpart x q extended typ msg text = Some mb /\ w_spx q extended ext = Some xb /\
     bs = ch "(" :: tb ++ SP_ :: sb ++ SP_ :: pb ++ SP_ :: ib ++ SP_ :: db ++ SP_ :: eb ++ SP_ ::
          dec_of_N size ++ mb ++ xb ++ [ch ")"].
 Proof.
@@ -377,13 +380,15 @@ Proof.
   - unfold w_mpx in H. wleaf H. left. reflexivity.
 Qed.
 
-Lemma w_msgpart_shape : forall x q extended msg text mb, w_msgpart x q extended msg text = Some mb -> sp_or_nil mb.
+Lemma w_msgpart_shape : forall x q extended typ msg text mb, w_msgpart x q extended typ msg text = Some mb -> sp_or_nil mb.
 Proof.
-  intros x q extended [[[e b'] lines]|] [tl|] mb H; unfold w_msgpart in H.
+  intros x q extended typ [[[e b'] lines]|] [tl|] mb H; unfold w_msgpart in H.
   - wskip H. right. eexists. reflexivity.
   - wskip H. right. eexists. reflexivity.
   - wskip H. right. eexists. reflexivity.
-  - wleaf H. left. reflexivity.
+  - destruct (is_text_type typ).
+    + wskip H. right. eexists. reflexivity.
+    + wleaf H. left. reflexivity.
 Qed.
 
 Lemma sp_or_nil_stop : forall bs t, sp_or_nil bs -> stop t -> stop (bs ++ t).
@@ -513,8 +518,7 @@ Proof.
     by (apply sp_or_nil_stop; [eapply w_msgpart_shape; eassumption|exact Hxs]).
   rewrite norm_bs_single. unfold rb_tail1.
   assert (Wext : (if extended then match ext with Some e => wf_spx e | None => false end else true) = true).
-  { destruct extended; [|reflexivity]. apply andb_true_iff in W. destruct W as [W _].
-    apply andb_true_iff in W. apply W. }
+  { destruct extended; [|reflexivity]. apply andb_true_iff in W. apply W. }
   destruct msg as [[[e b'] lines]|].
   - (* message/rfc822 *)
     do 4 (let X := fresh "V" in apply andb_true_iff in W1; destruct W1 as [W1 X]).
@@ -545,14 +549,25 @@ Proof.
       rewrite (num64_rt tl _ _ Wl Hmb (stop_nondigit _ Hxs)). cbn [bind].
       rewrite (finish_ext _ _ _ _ _ _ _ _ _ ext xb rest Hxb Wext).
       rewrite Z2N.id by (apply i64_bounds in Wl; lia). reflexivity.
-    + unfold w_msgpart in Hmb. wleaf Hmb. cbn [app].
-      destruct extended.
-      * destruct ext as [e|]; [|discriminate Wext].
-        apply andb_true_iff in W. destruct W as [W Wt]. apply andb_true_iff in W. destruct W as [_ Wm].
-        rewrite orb_false_r in Wt, Wm. apply negb_true_iff in Wt, Wm.
-        destruct (ext1_NIL_rt e xb rest Wext Hxb) as (t & -> & Hsp & Hrd).
-        rewrite Hsp, Wm, Wt. unfold rb_finish. rewrite Hrd. reflexivity.
-      * unfold w_spx in Hxb. wleaf Hxb. cbn [app]. rewrite dec_sp_close. reflexivity.
+    + unfold w_msgpart in Hmb. unfold norm_text. destruct (is_text_type typ) eqn:Wt.
+      * (* text with an unset Text: the server writes 0 lines *)
+        assert (Hnm : is_message_type typ subtyp = false).
+        { destruct (is_message_type typ subtyp) eqn:E; [|reflexivity].
+          apply message_not_text in E. congruence. }
+        assert (Wl : i64 0%Z = true) by reflexivity.
+        wskip Hmb. nrm.
+        rewrite dec_sp_app by (eapply w_num64_vfirst; eassumption).
+        rewrite Hnm.
+        rewrite (num64_rt 0%Z _ _ Wl Hmb (stop_nondigit _ Hxs)). cbn [bind].
+        rewrite (finish_ext _ _ _ _ _ _ _ _ _ ext xb rest Hxb Wext). reflexivity.
+      * wleaf Hmb. cbn [app].
+        destruct extended.
+        -- destruct ext as [e|]; [|discriminate Wext].
+           apply andb_true_iff in W. destruct W as [_ Wm].
+           rewrite orb_false_r in Wm. apply negb_true_iff in Wm.
+           destruct (ext1_NIL_rt e xb rest Wext Hxb) as (t & -> & Hsp & Hrd).
+           rewrite Hsp, Wm. unfold rb_finish. rewrite Hrd. reflexivity.
+        -- unfold w_spx in Hxb. wleaf Hxb. cbn [app]. rewrite dec_sp_close. reflexivity.
 Qed.
 
 Lemma multi_rt : forall cs subtyp ext, Forall Pb cs -> Pb (BMulti cs subtyp ext).
